@@ -11,7 +11,7 @@ import (
 	"github.com/dolthub/dolt/go/zzverif/vsql"
 )
 
-const c22Rule = "2-4 client sessions of one in-process sql-server (autocommit on or off per session, BEGIN/START TRANSACTION, COMMIT, ROLLBACK, SET autocommit, USE db/branch, dolt_checkout, occasional dolt_commit; a separate session creates up to two new branches mid-schedule, which open transactions then reference) run 15-45 statements over 1-2 tables on 2-3 branches in a statement-level interleaving drawn by rapid; reads are full-table or point SELECTs of the current branch (unqualified or `db/branch`.t), of another branch's working set (`db/branch`.t) and of branch heads (AS OF 'branch' / 'HEAD'); writes are INSERT/REPLACE/UPDATE/DELETE over primary keys 1..6. Every SELECT result is compared (as a sorted multiset of rows) with the reference model: snapshot of all branches taken by the first statement of the transaction (+) the transaction's own writes; autocommit statements see the latest committed state. Non-trivial: some transaction read a table (working set or head, own or other branch), another session then committed a change to exactly that table, and the first transaction read it again before ending (R1(x) W2(x) C2 R1(x)); distinct by the full statement history."
+const c22Rule = "2-4 client sessions of one in-process sql-server (autocommit on or off per session, BEGIN/START TRANSACTION, COMMIT, ROLLBACK, SET autocommit, USE db/branch, dolt_checkout, occasional dolt_commit; a separate session creates up to two new branches mid-schedule, which open transactions then reference) run 15-45 statements over 1-2 tables on 2-3 branches in a statement-level interleaving drawn by rapid; the database is created with a lower-, mixed- or upper-case name and every statement spells it in a drawn case; reads are full-table or point SELECTs of the current branch (unqualified, `db/branch`.t or `db`.t), of another branch's working set (`db/branch`.t) and of branch heads (AS OF 'branch' / 'HEAD' / 'HEAD~1' / 'branch~1', `db`.t AS OF, dolt_branches name+hash, first row of dolt_log); writes are INSERT/REPLACE/UPDATE/DELETE over primary keys 1..6. Every SELECT result is compared (as a sorted multiset of rows) with the reference model: snapshot of all branches taken by the first statement of the transaction (+) the transaction's own writes; autocommit statements see the latest committed state. Non-trivial: some transaction read a table (working set or head, own or other branch), another session then committed a change to exactly that table, and the first transaction read it again before ending (R1(x) W2(x) C2 R1(x)); distinct by the full statement history."
 
 func c22Cfg() *txCfg {
 	ops := []string{}
